@@ -20,8 +20,8 @@ DRAIN = ('__CPROVER_assigns(g_popped, g_dispatched, g_pushed, g_exc)\n'
          '__CPROVER_loop_invariant(g_popped <= g_pushed && g_dispatched == g_popped)')
 def xf(rewrites=(), throwers=(), try_=False, refvals=(), pre=()):
     return back_xform(TEMPL, refparams=(), members=MEMBERS, methods=METHODS, rewrites=CONT + list(rewrites), throwers=throwers, try_=try_, refvals=refvals, pre_rewrites=list(pre))
-PEI_RW = [dict(name='helper-object', pat='handle_eventless_transitions_helper ( library_sm ) eventless_helper ( self , $$A ) ; eventless_helper . process_completion_event ( $*B ) ;',
-               rep='PROCESS_COMPLETION_EVENT ( self , $$A , $*B ) ;', min=1, max=1)]
+PEI_RW = [dict(name='helper-object', pat='handle_eventless_transitions_helper ( library_sm ) eventless_helper ( self , $*A ) ; eventless_helper . process_completion_event ( $*B ) ;',
+               rep='PROCESS_COMPLETION_EVENT ( self , ( $*A ) , $*B ) ;', min=1, max=1)]
 for be in BACKS:
     SM = be + '/state_machine.hpp'
     EV = 'Event const & evt' if be == 'back' else 'Event && evt'
